@@ -22,4 +22,5 @@ elab "#audit_prefix " s:str : command => do
   for n in sorted do
     let axs ← Lean.collectAxioms n
     let axs := axs.qsort (fun a b => a.toString < b.toString)
-    logInfo m!"AUDIT {n} {axs.toList}"
+    -- one unbroken line per theorem (a MessageData list would be wrapped for long names)
+    logInfo (s!"AUDIT {n} [{", ".intercalate (axs.toList.map (fun a => a.toString))}]")
